@@ -10,7 +10,8 @@ import GridVerif.Model.Transform1D
 
     C04.transform <inv 0|1> <Class> <trim 0|1> <n> p₁ … pₙ <tfLo> <tfHi> <hasDomain 0|1> <gLo> <gHi> <pts> <wts>
         `tf.transform_1d_grid(OneDGrid(pts, wts, domain))`, `tf = Class(p…)` or `InverseRTransform(Class(p…))`;
-        `tfLo tfHi` = `tf.domain` (may be infinite)
+        `tfLo tfHi` = `tf.domain` of the implementation (may be infinite); the model uses the generated
+        domain of the class and answers `domain-differs <lo> <hi>` when the two are not the same numbers
     C04.onedgrid <hasDomain 0|1> <lo> <hi> <pts> <wts>
         the `OneDGrid` constructor alone
 
@@ -18,7 +19,8 @@ import GridVerif.Model.Transform1D
 -/
 namespace GridVerif.Driver.C04
 open GridVerif.Proto GridVerif.Transform1D
-open GridVerif.Gen.RTransform (opsOf raisesOf wrapInverseRTransform raisesInverseRTransform BaseTransform)
+open GridVerif.Gen.RTransform (opsOf raisesOf wrapInverseRTransform raisesInverseRTransform BaseTransform domainOf
+  codomainOf InverseRTransform)
 
 def pBool : String → Option Bool
   | "0" => some false
@@ -40,19 +42,38 @@ def answer : Except Err (Grid1D Float) → String
   | .ok g => showGrid g
   | .error e => errTag e
 
-/-- The transform object seen by `transform_1d_grid`. -/
-def mkTf (inv : Bool) (cls : String) (ps : List Float) (trim : Bool) (lo hi : Float) : Option (Tf Float) := do
+/-- An end of `tf.domain` as the guard of `transform_1d_grid` sees it (`±inf` for the infinite ends). -/
+def extFloat : GridVerif.ExtVal Float → Float
+  | .fin x => x
+  | .posInf => 1.0 / 0.0
+  | .negInf => -1.0 / 0.0
+
+/-- The transform object seen by `transform_1d_grid`.  Its declared domain is the *generated* one
+(`domainOf`; for `InverseRTransform` the generated swap of domain and codomain); the `tfLo tfHi` sent by
+the harness (the implementation's `tf.domain`) must be the same numbers, else the op answers `domain-differs`. -/
+def mkTf (inv : Bool) (cls : String) (ps : List Float) (trim : Bool) (lo hi : Float) : Option (Except String (Tf Float)) := do
   let f ← opsOf cls ps trim
+  let d ← domainOf cls ps trim
+  let c ← codomainOf cls ps trim
+  let dom := if inv then InverseRTransform.domainExt d c else d
+  let (glo, ghi) := (extFloat dom.1, extFloat dom.2)
+  if !(glo == lo && ghi == hi) then
+    pure (.error ("domain-differs " ++ sFloat glo ++ " " ++ sFloat ghi))
+  else
   let sizeRaises := fun (n : Nat) =>
     raisesOf cls (if inv then "inverse" else "transform") ps trim (Float.ofNat n) 0.0 == some true
   if inv then
     let g := wrapInverseRTransform f
-    pure { transform := g.transform, inverse := g.inverse, deriv := g.deriv, deriv2 := g.deriv2, deriv3 := g.deriv3,
-           domLo := some lo, domHi := some hi, sizeRaises := sizeRaises,
-           derivRaises := fun x => raisesInverseRTransform f "deriv" x == some true }
+    let tf : Tf Float :=
+      { transform := g.transform, inverse := g.inverse, deriv := g.deriv, deriv2 := g.deriv2, deriv3 := g.deriv3,
+        domLo := some glo, domHi := some ghi, sizeRaises := sizeRaises,
+        derivRaises := fun x => raisesInverseRTransform f "deriv" x == some true }
+    pure (.ok tf)
   else
-    pure { transform := f.transform, inverse := f.inverse, deriv := f.deriv, deriv2 := f.deriv2, deriv3 := f.deriv3,
-           domLo := some lo, domHi := some hi, sizeRaises := sizeRaises }
+    let tf : Tf Float :=
+      { transform := f.transform, inverse := f.inverse, deriv := f.deriv, deriv2 := f.deriv2, deriv3 := f.deriv3,
+        domLo := some glo, domHi := some ghi, sizeRaises := sizeRaises }
+    pure (.ok tf)
 
 def pDomain (has lo hi : String) : Option (Option (Float × Float)) := do
   let has ← pBool has
@@ -72,8 +93,9 @@ def handle : List String → Option String
     let (pts, tl) ← pVec pFloat tl
     let (wts, tl) ← pVec pFloat tl
     if tl ≠ [] then none else
-    let tf ← mkTf inv cls ps trim tfLo tfHi
-    pure (answer (transform1dGrid tf { pts := pts, wts := wts, domain := dom }))
+    match ← mkTf inv cls ps trim tfLo tfHi with
+    | .error e => pure e
+    | .ok tf => pure (answer (transform1dGrid tf { pts := pts, wts := wts, domain := dom }))
   | "C04.onedgrid" :: has :: lo :: hi :: rest => do
     let dom ← pDomain has lo hi
     let (pts, tl) ← pVec pFloat rest
